@@ -134,7 +134,7 @@ def run(tier, v):
                 timeout=900, files=files)
     gens.append(("exh", g))
     g = tlc_gen(PID, "gen_sim", "Gen_Alerts", "Gen_Alerts.cfg", os.path.join(wd, "gen_sim.jsonl"), os.path.join(wd, "lib_sim.json"),
-                simulate="num=%d" % (600 if thorough else 40), depth=45, workers=8, timeout=1200)
+                simulate="num=%d" % (400 if thorough else 40), depth=45, workers=8, timeout=1200)
     gens.append(("sim", g))
     log("  Gen: %d exhaustive short behaviours, %d simulated behaviours of 40 steps" % (gens[0][1].behaviours, gens[1][1].behaviours))
     if gens[0][1].behaviours < 500 or gens[1][1].behaviours < 100:
